@@ -36,6 +36,7 @@ func (p *Probe) Outputs() []controller.Output { return append([]controller.Outpu
 
 // Run implements controller.Controller.
 func (p *Probe) Run(ctx context.Context, r controller.Runtime, _ *zap.Logger) error {
+	vrt.TouchKey("px.records", true) // the records below are read by the scenario's main goroutine
 	p.Starts++
 	p.Runtime = r
 	if p.OnRun != nil {
@@ -47,6 +48,7 @@ func (p *Probe) Run(ctx context.Context, r controller.Runtime, _ *zap.Logger) er
 		if vrt.Select(false, vrt.RecvCase(ctx.Done()), vrt.RecvCase(r.EventCh())) == 0 {
 			return nil
 		}
+		vrt.TouchKey("px.records", true)
 		p.Reconciles++
 		if p.OnEvent != nil {
 			if err := p.OnEvent(ctx, r, p.Reconciles); err != nil {
@@ -78,6 +80,7 @@ func (p *QProbe) Settings() controller.QSettings { return p.SettingsV }
 
 // Reconcile implements controller.QController.
 func (p *QProbe) Reconcile(ctx context.Context, _ *zap.Logger, r controller.QRuntime, ptr resource.Pointer) error {
+	vrt.TouchKey("px.records", true)
 	recMu.Lock()
 	p.Reconciles = append(p.Reconciles, string(ptr.Type())+"/"+string(ptr.ID()))
 	recMu.Unlock()
@@ -89,6 +92,7 @@ func (p *QProbe) Reconcile(ctx context.Context, _ *zap.Logger, r controller.QRun
 
 // MapInput implements controller.QController.
 func (p *QProbe) MapInput(ctx context.Context, _ *zap.Logger, r controller.QRuntime, md controller.ReducedResourceMetadata) ([]resource.Pointer, error) {
+	vrt.TouchKey("px.records", true)
 	recMu.Lock()
 	p.Maps = append(p.Maps, string(md.Type())+"/"+string(md.ID()))
 	recMu.Unlock()
